@@ -1,10 +1,16 @@
 //! Generators of the API-level suites c03_filter, c05_order, c04_group, c02_layout.
+//!
+//! Every suite is organised in *slices* (the generator class printed into the evidence). The
+//! engine has many narrow gaps (DESIGN section 7); the query shapes known to hit one are confined
+//! to small slices of their own so that the bulk of the budget explores the part of the space that
+//! is expected to hold, while the known classes keep being generated (a fix is then noticed).
 use crate::api::{case_sx, pair_sx};
 use crate::db::{gen_layout, Layout};
-use crate::pgen::{gen_pred, PredOpts};
+use crate::pgen::{gen_leaf, gen_pred, PredOpts};
 use crate::query::{Expr, OKey, Query, Sel};
+use crate::refeval;
 use crate::tgen::*;
-use crate::val::{Kind, Table};
+use crate::val::{Kind, Table, V};
 use lvharness::rng::Rng;
 use lvharness::suite::Case;
 
@@ -17,6 +23,39 @@ fn nrows(r: &mut Rng, i: usize) -> usize {
     }
 }
 
+/// A nullable column whose NULL tail inside one partition is at least `batch_size` long makes the
+/// streaming of its null map panic (finding Q4). Outside the slice that targets it, give the last
+/// row of every partition a value in the randomly-nullable columns.
+fn fix_null_tails(t: &mut Table, layout: &Layout, cols: &[usize]) {
+    let parts = layout.partitions();
+    for &c in cols {
+        let fill = t.cols[c].cells.iter().find(|v| !v.is_null()).cloned();
+        if let Some(fill) = fill {
+            let mut end = 0;
+            for len in &parts {
+                end += len;
+                if *len > 0 && t.cols[c].cells[end - 1].is_null() {
+                    t.cols[c].cells[end - 1] = fill.clone();
+                }
+            }
+        }
+    }
+}
+
+fn opts<'a>(cols: &'a [usize]) -> PredOpts<'a> {
+    PredOpts {
+        cols,
+        allow_like: false,
+        allow_not: false,
+        allow_or: false,
+        allow_colcol: false,
+        allow_arith: false,
+        allow_str_order: false,
+        allow_huge_const: false,
+        allow_is_null: false,
+    }
+}
+
 // ---- C03 ------------------------------------------------------------------------------------------
 
 pub fn gen_c03(r: &mut Rng, tier: &str) -> Vec<Case> {
@@ -24,38 +63,358 @@ pub fn gen_c03(r: &mut Rng, tier: &str) -> Vec<Case> {
     let mut cases = vec![];
     for ti in 0..n_tables {
         let n = nrows(r, ti);
-        let table = standard_table(r, n);
+        let mut table = standard_table(r, n);
         let layout = gen_layout(r, n, 4, false);
-        // classes of predicates, each with its own share of the budget; the classes that are known to
-        // hit engine gaps (OR / NOT / LIKE over nullable columns, columns absent from a partition)
-        // are confined to their own small slices
-        let mut qs = vec![];
-        let mut classes = vec![];
-        for qi in 0..10 {
-            let (cols, like, not, or, cls): (Vec<usize>, bool, bool, bool, &str) = match qi {
-                0 | 1 | 2 => (vec![A, F, S], false, false, true, "nonnull"),          // no NULLs anywhere
-                3 | 4 => (vec![A, B, F, G, S, U], false, false, false, "nullable-and"),
-                5 => (vec![A, F, S], true, true, true, "nonnull-like-not"),
-                6 => (vec![A, B, G, U, S], false, false, true, "nullable-or"),
-                7 => (vec![B, G, U, A], true, true, false, "nullable-like-not"),
-                8 => (vec![X, W, A], false, false, false, "absent-col"),
-                _ => (vec![ID, A, B, F, G, S, U], false, false, true, "mixed"),
+        fix_null_tails(&mut table, &layout, &[B, G, U]);
+        for qi in 0..20 {
+            let nonnull = [A, F, S];
+            let nullable = [A, B, F, G, S, U];
+            let absent = [X, W, A];
+            let all = [ID, A, B, F, G, S, U];
+            let (o, depth, cls): (PredOpts, usize, &str) = match qi {
+                // bulk: non-null columns, every connective, LIKE, column-column, arithmetic
+                0..=7 => (
+                    PredOpts { allow_like: true, allow_not: true, allow_or: true, allow_colcol: qi % 2 == 0, allow_arith: qi % 3 == 0, ..opts(&nonnull) },
+                    (qi % 4) as usize,
+                    "nonnull",
+                ),
+                // nullable columns under AND (and IS [NOT] NULL)
+                8..=11 => (PredOpts { allow_colcol: qi % 2 == 0, allow_is_null: true, allow_arith: qi == 9, ..opts(&nullable) }, (qi % 3) as usize, "nullable-and"),
+                12 | 13 => (PredOpts { allow_is_null: true, ..opts(&all) }, 1, "is-null"),
+                // slices aimed at known gaps
+                14 => (PredOpts { allow_str_order: true, ..opts(&[S, U]) }, 0, "str-order"),
+                15 => (PredOpts { allow_or: true, allow_is_null: true, ..opts(&nullable) }, 2, "nullable-or"),
+                16 => (PredOpts { allow_not: true, ..opts(&[B, G, U]) }, 1, "nullable-not"),
+                17 => (PredOpts { allow_like: true, ..opts(&[U, S]) }, 0, "nullable-like"),
+                18 => (PredOpts { allow_is_null: true, ..opts(&absent) }, 1, "absent-col"),
+                _ => (PredOpts { allow_huge_const: true, ..opts(&[A, B]) }, 0, "huge-const"),
             };
-            let o = PredOpts { cols: &cols, allow_like: like, allow_not: not, allow_or: or, allow_colcol: qi % 2 == 0, allow_arith: qi == 9 || qi == 1 };
-            let depth = r.below(4) as usize;
             let p = gen_pred(r, &table, &o, depth);
             let mut q = Query::select(vec![Sel::Plain(Expr::Col(ID))]);
             if r.chance(1, 4) {
-                q.select.push(Sel::Plain(Expr::Col(*r.pick(&cols))));
+                q.select.push(Sel::Plain(Expr::Col(*r.pick(o.cols))));
             }
             q.filter = Some(p);
-            qs.push(q);
-            classes.push(cls);
-        }
-        // one case per class slice so that the histogram shows the distribution
-        for (q, cls) in qs.into_iter().zip(classes) {
             cases.push(Case { class: format!("{}:{}", cls, layout.shape()), input: case_sx(&table, &layout, &[q]) });
         }
     }
     cases
 }
+
+// ---- C05 ------------------------------------------------------------------------------------------
+
+fn simple_filter(r: &mut Rng, table: &Table) -> Option<Expr> {
+    // filters that stay clear of the predicate gaps (C03's business): non-null columns only
+    if r.chance(1, 2) {
+        return None;
+    }
+    let cols = [A, F, S];
+    Some(gen_leaf(r, table, &opts(&cols)))
+}
+
+fn limit_near(r: &mut Rng, n: usize, parts: &[usize]) -> u64 {
+    // limits around half a partition (top-n switch), around the table size, and small ones
+    let p = if parts.is_empty() { 1 } else { *r.pick(parts) as i64 };
+    let v = match r.below(6) {
+        0 => p / 2 + r.range(-2, 2),
+        1 => p / 2 - 1,
+        2 => n as i64 + r.range(-2, 2),
+        3 => r.range(1, 3),
+        4 => p + r.range(-1, 1),
+        _ => r.range(1, n as i64 + 2),
+    };
+    v.max(1) as u64
+}
+
+fn filtered_count(q: &Query, t: &Table) -> usize {
+    refeval::filter_rows(&q.filter, &t.rows()).map(|v| v.len()).unwrap_or(0)
+}
+
+pub fn gen_c05(r: &mut Rng, tier: &str) -> Vec<Case> {
+    let n_tables = if tier == "thorough" { 1500 } else { 70 };
+    let mut cases = vec![];
+    for ti in 0..n_tables {
+        let n = nrows(r, ti);
+        let mut table = standard_table(r, n);
+        let layout = gen_layout(r, n, 4, false);
+        fix_null_tails(&mut table, &layout, &[B, G, U]);
+        let parts = layout.partitions();
+        for qi in 0..20 {
+            let mut q = Query::select(vec![Sel::Plain(Expr::Col(ID))]);
+            let (keycols, cls): (Vec<usize>, &str) = match qi {
+                0..=9 => (vec![A, F, S, ID], "nonnull-keys"),
+                10..=12 => (vec![], "no-order"),
+                13 | 14 => (vec![A, B, F, G, S, U], "nullable-keys"),
+                15 => (vec![B, G, U], "topn-nullable"),
+                16 => (vec![X, W, A], "absent-keys"),
+                17 => (vec![B], "expr-key-nullable"),
+                _ => (vec![A, F, S], "limit-offset-edges"),
+            };
+            if !keycols.is_empty() {
+                let nk = if qi == 15 || qi == 17 { 1 } else { 1 + r.below(3) as usize };
+                for _ in 0..nk {
+                    let c = *r.pick(&keycols);
+                    let key = if table.cols[c].kind == Kind::Int && (qi == 17 || (c == A && r.chance(1, 6))) {
+                        Expr::arith("mod", Expr::Col(c), Expr::int(1 + r.range(1, 4)))
+                    } else {
+                        Expr::Col(c)
+                    };
+                    q.order.push((OKey::Expr(key), r.chance(1, 2)));
+                }
+            }
+            // project some keys and some other columns (nullable columns only where the slice has them)
+            let proj: &[usize] = if qi >= 13 && qi <= 17 { &[A, B, F, G, S, U] } else { &[A, F, S] };
+            for c in proj {
+                if r.chance(1, 4) {
+                    q.select.push(Sel::Plain(Expr::Col(*c)));
+                }
+            }
+            if !q.order.is_empty() && r.chance(1, 2) {
+                if let OKey::Expr(e) = &q.order[0].0 {
+                    q.select.push(Sel::Plain(e.clone()));
+                }
+            }
+            q.filter = simple_filter(r, &table);
+            let cnt = filtered_count(&q, &table) as u64;
+            match qi {
+                15 => {
+                    // single nullable key with LIMIT below half a partition: top-n over a nullable key
+                    let p = *parts.iter().max().unwrap_or(&1) as u64;
+                    q.limit = Some((p / 2).saturating_sub(1).max(1));
+                }
+                18 => {
+                    // LIMIT 0, OFFSET at / beyond the number of rows
+                    match r.below(3) {
+                        0 => q.limit = Some(0),
+                        1 => {
+                            q.limit = Some(limit_near(r, n, &parts));
+                            q.offset = cnt + r.below(3);
+                            q.explicit_offset = true;
+                        }
+                        _ => {
+                            q.limit = Some(limit_near(r, n, &parts));
+                            q.offset = cnt;
+                            q.explicit_offset = true;
+                        }
+                    }
+                }
+                19 => {
+                    // OFFSET without LIMIT
+                    q.offset = r.below(cnt + 1);
+                    q.explicit_offset = true;
+                }
+                _ => match r.below(8) {
+                    0 => {}
+                    1..=4 => q.limit = Some(limit_near(r, n, &parts)),
+                    _ => {
+                        q.limit = Some(limit_near(r, n, &parts));
+                        q.offset = r.below(cnt.max(1)); // strictly inside the result
+                    }
+                },
+            }
+            if qi == 13 || qi == 14 {
+                // keep nullable keys out of the top-n path (that is slice 15)
+                if q.order.len() == 1 {
+                    q.limit = None;
+                    q.offset = 0;
+                }
+            }
+            cases.push(Case { class: format!("{}:{}", cls, layout.shape()), input: case_sx(&table, &layout, &[q]) });
+        }
+    }
+    cases
+}
+
+// ---- C04 ------------------------------------------------------------------------------------------
+
+/// a table geared to grouping: low / medium cardinality keys of every type, nullable and partially
+/// absent, plus measure columns
+pub fn group_table(r: &mut Rng, n: usize, card: usize) -> Table {
+    let nb = *r.pick(&[3u64, 6]);
+    let ca = r.below(N_INT_CLASSES as u64) as usize;
+    let cm = *r.pick(&[0usize, 2, 3, 9, 12, 13]);
+    Table {
+        cols: vec![
+            id_col(n),
+            int_col(r, "a", n, ca, Some(card), Nulls::None),
+            int_col(r, "b", n, 4, Some(card), Nulls::Some(nb)),
+            int_col(r, "x", n, 0, Some(card), Nulls::Stretches),
+            float_col(r, "f", n, 0, Some(card), Nulls::None),
+            float_col(r, "g", n, 0, Some(card), Nulls::Some(nb)),
+            str_col(r, "s", n, if card > 200 { 2 } else { 1 }, if card > 200 { None } else { Some(card) }, Nulls::None),
+            str_col(r, "u", n, 0, Some(card), Nulls::Some(nb)),
+            str_col(r, "w", n, 1, Some(card), Nulls::Stretches),
+            // measures
+            int_col(r, "m", n, cm, None, Nulls::None),
+            int_col(r, "mn", n, cm, None, Nulls::Some(4)),
+            float_col(r, "fm", n, 1, None, Nulls::None),
+            float_col(r, "fn", n, 0, None, Nulls::Some(4)),
+            int_col(r, "mx", n, cm, None, Nulls::Stretches),
+        ],
+    }
+}
+
+pub const M: usize = 9;
+pub const MN: usize = 10;
+pub const FM: usize = 11;
+pub const FN: usize = 12;
+pub const MX: usize = 13;
+
+fn gen_agg(r: &mut Rng, table: &Table, measures: &[usize]) -> Sel {
+    let c = *r.pick(measures);
+    let is_float = table.cols[c].kind == Kind::Float;
+    match r.below(8) {
+        0 => Sel::Agg("count", Expr::int(1)),
+        1 => Sel::Agg("count", Expr::Col(c)),
+        2 | 3 => Sel::Agg("sum", Expr::Col(c)),
+        4 => Sel::Agg("min", Expr::Col(c)),
+        5 => Sel::Agg("max", Expr::Col(c)),
+        6 if !is_float => Sel::Agg("sum", Expr::arith("add", Expr::Col(c), Expr::int(1))),
+        _ => {
+            if is_float {
+                Sel::Agg("sum", Expr::Col(c))
+            } else {
+                Sel::Avg(Expr::Col(c))
+            }
+        }
+    }
+}
+
+pub fn gen_c04(r: &mut Rng, tier: &str) -> Vec<Case> {
+    let n_tables = if tier == "thorough" { 1200 } else { 60 };
+    let mut cases = vec![];
+    for ti in 0..n_tables {
+        let (n, card) = match ti % 8 {
+            0 => (1 + r.below(5) as usize, 2),
+            1 | 2 => (10 + r.below(40) as usize, 1 + r.below(4) as usize),
+            3 | 4 => (30 + r.below(100) as usize, 3 + r.below(12) as usize),
+            5 => (300 + r.below(150) as usize, 250 + r.below(10) as usize), // cardinality around 255/256
+            6 => (100 + r.below(100) as usize, 40),
+            _ => (20 + r.below(30) as usize, 1),
+        };
+        let mut table = group_table(r, n, card);
+        let layout = gen_layout(r, n, 4, false);
+        fix_null_tails(&mut table, &layout, &[B, G, U, MN, FN]);
+        for qi in 0..20 {
+            let (keys, measures, cls): (Vec<usize>, Vec<usize>, &str) = match qi {
+                0..=2 => (vec![], vec![M, FM], "global"),
+                3..=11 => (vec![*r.pick(&[A, S, F])], vec![M, FM], "one-nonnull-key"),
+                12 => (vec![*r.pick(&[A, S]), ID], vec![M, FM], "two-keys-with-id"),
+                // slices aimed at known gaps
+                13 => {
+                    let k1 = *r.pick(&[A, S, F]);
+                    let k2 = *r.pick(&[A, S, F]);
+                    (if k1 == k2 { vec![k1, ID] } else { vec![k1, k2] }, vec![M, FM], "two-nonnull-keys")
+                }
+                14 => (vec![*r.pick(&[A, S]), *r.pick(&[B, U, G]), *r.pick(&[F, ID])], vec![M, FM], "three-keys-mixed"),
+                15 => (vec![*r.pick(&[B, U])], vec![M, FM], "one-nullable-key"),
+                16 => (vec![G], vec![M, FM], "nullable-float-key"),
+                17 => (vec![*r.pick(&[X, W])], vec![M, FM], "absent-key"),
+                18 => (vec![*r.pick(&[A, S])], vec![MN, FN], "nullable-measure"),
+                _ => (vec![*r.pick(&[A, S])], vec![MX], "absent-measure"),
+            };
+            let mut q = Query::select(keys.iter().map(|c| Sel::Plain(Expr::Col(*c))).collect());
+            let nagg = 1 + r.below(3) as usize;
+            for _ in 0..nagg {
+                q.select.push(gen_agg(r, &table, &measures));
+            }
+            if r.chance(1, 3) {
+                q.filter = simple_filter(r, &table);
+            }
+            // ORDER BY an output column / LIMIT (>= 1) in a minority of the cases
+            if qi <= 12 {
+                if r.chance(1, 5) {
+                    let i = r.below(q.select.len() as u64) as usize;
+                    q.order.push((OKey::Out(i), r.chance(1, 2)));
+                    if r.chance(1, 2) {
+                        q.limit = Some(1 + r.below(card as u64 + 2));
+                    }
+                } else if r.chance(1, 8) {
+                    q.limit = Some(1 + r.below(card as u64 + 2));
+                }
+            }
+            cases.push(Case { class: format!("{}:{}", cls, layout.shape()), input: case_sx(&table, &layout, &[q]) });
+        }
+    }
+    cases
+}
+
+// ---- C02 ------------------------------------------------------------------------------------------
+
+pub fn gen_c02(r: &mut Rng, tier: &str) -> Vec<Case> {
+    let n_tables = if tier == "thorough" { 1200 } else { 60 };
+    let mut cases = vec![];
+    for ti in 0..n_tables {
+        let n = match ti % 5 {
+            0 => 2 + r.below(5) as usize,
+            1 | 2 => 8 + r.below(40) as usize,
+            _ => 40 + r.below(160) as usize,
+        };
+        let card = 1 + r.below(6) as usize;
+        let mut table = group_table(r, n, card);
+        // two physical realisations; compaction (factor 0/1/4) in one slice only: compaction has
+        // defects of its own (C07)
+        let compaction = ti % 10 == 9;
+        let l1 = gen_layout(r, n, 5, compaction);
+        let mut l2 = gen_layout(r, n, 5, false);
+        if ti % 3 == 0 {
+            l2 = Layout::single(n); // one buffer, default options
+        }
+        fix_null_tails(&mut table, &l1, &[B, G, U, MN, FN]);
+        fix_null_tails(&mut table, &l2, &[B, G, U, MN, FN]);
+        let mut qs = vec![];
+        // 1. filter / select over non-null columns, nullable column projected
+        let cols = [A, F, S, M];
+        let o = PredOpts { allow_or: true, allow_not: true, allow_colcol: true, allow_arith: true, ..opts(&cols) };
+        let mut q = Query::select(vec![Sel::Plain(Expr::Col(ID)), Sel::Plain(Expr::Col(*r.pick(&[A, B, S, U, G])))]);
+        q.filter = Some(gen_pred(r, &table, &o, 2));
+        if r.chance(1, 2) {
+            q.limit = Some(1 + r.below(n as u64 + 2));
+        }
+        qs.push(q);
+        // 2. filter over nullable columns (AND only)
+        let cols2 = [A, B, G, U, S];
+        let o2 = PredOpts { allow_is_null: true, ..opts(&cols2) };
+        let mut q = Query::select(vec![Sel::Plain(Expr::Col(ID))]);
+        q.filter = Some(gen_pred(r, &table, &o2, 1));
+        qs.push(q);
+        // 3. order by non-null keys with limit
+        let mut q = Query::select(vec![Sel::Plain(Expr::Col(ID)), Sel::Plain(Expr::Col(M))]);
+        for _ in 0..1 + r.below(2) {
+            q.order.push((OKey::Expr(Expr::Col(*r.pick(&[A, M, F, S, FM]))), r.chance(1, 2)));
+        }
+        if r.chance(2, 3) {
+            q.limit = Some(1 + r.below(n as u64 + 2));
+        }
+        qs.push(q);
+        // 4. aggregate: global or one non-null key
+        let keys: Vec<usize> = if r.chance(1, 3) { vec![] } else { vec![*r.pick(&[A, S, F])] };
+        let mut q = Query::select(keys.iter().map(|c| Sel::Plain(Expr::Col(*c))).collect());
+        q.select.push(Sel::Agg("count", Expr::int(1)));
+        q.select.push(gen_agg(r, &table, &[M, FM]));
+        qs.push(q);
+        // 5. one query from the gap-prone part of the space (nullable / absent columns as sort key,
+        //    grouping key or measure): the classes of C03-C05 seen through the layout oracle
+        if ti % 4 == 0 {
+            let mut q = match r.below(3) {
+                0 => {
+                    let mut q = Query::select(vec![Sel::Plain(Expr::Col(ID)), Sel::Plain(Expr::Col(*r.pick(&[X, W, MX, B])))]);
+                    q.order.push((OKey::Expr(Expr::Col(*r.pick(&[B, U, G]))), r.chance(1, 2)));
+                    q
+                }
+                1 => Query::select(vec![Sel::Plain(Expr::Col(*r.pick(&[B, U, X]))), Sel::Agg("count", Expr::int(1))]),
+                _ => Query::select(vec![Sel::Plain(Expr::Col(A)), Sel::Agg("sum", Expr::Col(MX))]),
+            };
+            q.explicit_offset = false;
+            qs.push(q);
+        }
+        cases.push(Case {
+            class: format!("{}|{}{}", l1.shape(), l2.shape(), if compaction { ":compaction" } else { "" }),
+            input: pair_sx(&table, &l1, &l2, &qs),
+        });
+    }
+    cases
+}
+
+#[allow(dead_code)]
+fn unused(_: V) {}
